@@ -67,25 +67,69 @@ static struct vt_s *VT;
 /* ---------------- task templates ---------------- */
 struct tpl_s {
 	const char *name;
-	const char *body;	/* DTSTART/RRULE/RDATE lines with %s placeholders handled below */
+	int kind;		/* 0: DTSTART (+ RDATE list of all instants when nocc > 1), 1: SECONDLY rule */
 	int nocc;
 	int off[M_MAXOCC];	/* seconds relative to T0 */
+	int interval;
 	int limit;
 };
 
-/* T0 = 2030-01-01T00:00:00Z */
+/* T0 = 2030-01-01T00:00:00Z unless --opt t0=<epoch> */
 static const struct tpl_s tpls[] = {
-	{"oneshot+2", "DTSTART:20300101T000002Z\n", 1, {2}, 0},
-	{"rdate+2+4", "DTSTART:20300101T000002Z\nRDATE:20300101T000002Z,20300101T000004Z\n", 2, {2, 4}, 0},
-	{"sec2x3", "DTSTART:20300101T000002Z\nRRULE:FREQ=SECONDLY;INTERVAL=2;COUNT=3\n", 3, {2, 4, 6}, 0},
-	{"past", "DTSTART:20291231T235950Z\nRRULE:FREQ=SECONDLY;COUNT=2\n", 2, {-10, -9}, 0},
-	{"straddle", "DTSTART:20291231T235959Z\nRRULE:FREQ=SECONDLY;INTERVAL=3;COUNT=3\n", 3, {-1, 2, 5}, 0},
+	{"oneshot+2", 0, 1, {2}, 0, 0},
+	{"rdate+2+4", 0, 2, {2, 4}, 0, 0},
+	{"sec2x3", 1, 3, {2, 4, 6}, 2, 0},
+	{"past", 1, 2, {-10, -9}, 1, 0},
+	{"straddle", 1, 3, {-1, 2, 5}, 3, 0},
 	/* C12 templates: many occurrences, with limits */
-	{"sec1x6/lim1", "DTSTART:20300101T000001Z\nRRULE:FREQ=SECONDLY;COUNT=6\nX-ECHS-MAX-SIMUL:1\n", 6, {1, 2, 3, 4, 5, 6}, 1},
-	{"sec1x6/lim2", "DTSTART:20300101T000001Z\nRRULE:FREQ=SECONDLY;COUNT=6\nX-ECHS-MAX-SIMUL:2\n", 6, {1, 2, 3, 4, 5, 6}, 2},
-	{"sec1x6/unset", "DTSTART:20300101T000001Z\nRRULE:FREQ=SECONDLY;COUNT=6\n", 6, {1, 2, 3, 4, 5, 6}, 0},
-	{"sec1x6/lim62", "DTSTART:20300101T000001Z\nRRULE:FREQ=SECONDLY;COUNT=6\nX-ECHS-MAX-SIMUL:62\n", 6, {1, 2, 3, 4, 5, 6}, 62},
+	{"sec1x6/lim1", 1, 6, {1, 2, 3, 4, 5, 6}, 1, 1},
+	{"sec1x6/lim2", 1, 6, {1, 2, 3, 4, 5, 6}, 1, 2},
+	{"sec1x6/unset", 1, 6, {1, 2, 3, 4, 5, 6}, 1, 0},
+	{"sec1x6/lim62", 1, 6, {1, 2, 3, 4, 5, 6}, 1, 62},
 };
+
+static size_t
+tpl_stamp(char *buf, size_t bsz, double t)
+{
+	/* own civil conversion (days-from-civil inverse), nothing of the code under test */
+	long z = (long)(t / 86400.0), sod = (long)(t - (double)z * 86400.0);
+	long era, doe, yoe, doy, mp, d, m, y;
+	z += 719468;
+	era = (z >= 0 ? z : z - 146096) / 146097;
+	doe = z - era * 146097;
+	yoe = (doe - doe / 1460 + doe / 36524 - doe / 146096) / 365;
+	y = yoe + era * 400;
+	doy = doe - (365 * yoe + yoe / 4 - yoe / 100);
+	mp = (5 * doy + 2) / 153;
+	d = doy - (153 * mp + 2) / 5 + 1;
+	m = mp < 10 ? mp + 3 : mp - 9;
+	y += m <= 2;
+	return (size_t)snprintf(buf, bsz, "%04ld%02ld%02ldT%02ld%02ld%02ldZ", y, m, d, sod / 3600, sod / 60 % 60, sod % 60);
+}
+
+static const char*
+tpl_body(const struct tpl_s *tp)
+{
+	static char body[512];
+	char st[32];
+	size_t o = 0;
+	tpl_stamp(st, sizeof(st), HX_T0 + tp->off[0]);
+	o += (size_t)snprintf(body + o, sizeof(body) - o, "DTSTART:%s\n", st);
+	if (tp->kind == 0 && tp->nocc > 1) {
+		o += (size_t)snprintf(body + o, sizeof(body) - o, "RDATE:");
+		for (int i = 0; i < tp->nocc; i++) {
+			tpl_stamp(st, sizeof(st), HX_T0 + tp->off[i]);
+			o += (size_t)snprintf(body + o, sizeof(body) - o, "%s%s", i ? "," : "", st);
+		}
+		o += (size_t)snprintf(body + o, sizeof(body) - o, "\n");
+	} else if (tp->kind == 1) {
+		o += (size_t)snprintf(body + o, sizeof(body) - o, "RRULE:FREQ=SECONDLY;INTERVAL=%d;COUNT=%d\n", tp->interval, tp->nocc);
+	}
+	if (tp->limit) {
+		o += (size_t)snprintf(body + o, sizeof(body) - o, "X-ECHS-MAX-SIMUL:%d\n", tp->limit);
+	}
+	return body;
+}
 #define NTPL	((int)(sizeof(tpls) / sizeof(*tpls)))
 
 static const unsigned users[] = {1000, 1001, 0};
@@ -295,7 +339,7 @@ enabled(struct ev_s *ev, int max)
 static size_t
 mk_add(char *buf, size_t bsz, const char *uid, const struct tpl_s *tp, const char *ownerline, size_t off)
 {
-	return off + (size_t)snprintf(buf + off, bsz - off, "BEGIN:VEVENT\nUID:%s\nSUMMARY:job-%s\n%s%sEND:VEVENT\n", uid, uid, tp->body, ownerline);
+	return off + (size_t)snprintf(buf + off, bsz - off, "BEGIN:VEVENT\nUID:%s\nSUMMARY:job-%s\n%s%sEND:VEVENT\n", uid, uid, tpl_body(tp), ownerline);
 }
 
 /* model: load template into task */
@@ -822,11 +866,11 @@ explore(int depth)
 static void
 sweep_limit(int N)
 {
-	char req[1024];
+	char req[1024], st0[32];
 	struct hx_reply_s rp;
 	size_t o = (size_t)snprintf(req, sizeof(req),
-		"BEGIN:VCALENDAR\nVERSION:2.0\nMETHOD:PUBLISH\nBEGIN:VEVENT\nUID:X\nSUMMARY:job\nDTSTART:20300101T000001Z\n"
-		"RRULE:FREQ=SECONDLY;COUNT=80\nX-ECHS-MAX-SIMUL:%d\nEND:VEVENT\nEND:VCALENDAR\n", N);
+		"BEGIN:VCALENDAR\nVERSION:2.0\nMETHOD:PUBLISH\nBEGIN:VEVENT\nUID:X\nSUMMARY:job\nDTSTART:%s\n"
+		"RRULE:FREQ=SECONDLY;COUNT=80\nX-ECHS-MAX-SIMUL:%d\nEND:VEVENT\nEND:VCALENDAR\n", (tpl_stamp(st0, sizeof(st0), HX_T0 + 1), st0), N);
 	char shape[64];
 
 	snprintf(hist, sizeof(hist), "ADD(X, SECONDLY x80, MAX-SIMUL:%d) then %d+1 on-time ticks, EXIT(oldest), one more tick", N, N);
@@ -896,6 +940,9 @@ enumerate(void)
 		unsigned cpu = (unsigned)(vd_shard % (ncpu > 0 ? ncpu : 1));
 		mask[cpu / (8 * sizeof(long))] |= 1UL << (cpu % (8 * sizeof(long)));
 		(void)syscall(SYS_sched_setaffinity, 0L, (long)sizeof(mask), (long)mask, 0L, 0L, 0L);
+	}
+	if (vd_opt("t0", NULL)) {
+		hx_t0 = hx_now = strtod(vd_opt("t0", "0"), NULL);
 	}
 	hx_boot(1);
 	if (prop == 11) {
